@@ -146,6 +146,8 @@ def check(src, rep):
             r = AE.apply(fnp, [obj, PAY_PRIME])
             if r[0] in ("undecided", "branch"):
                 raise Undecided(f"AutoDecoder.decode_message_payload outside the interpreted subset: {r[1]}")
+            # callers typically read the name after every message: a read between two decodes must not change anything
+            AE.apply(fnn, [obj])
         return obj
 
     def remembered(obj):
@@ -268,8 +270,13 @@ def check(src, rep):
             obj = fresh(prev)
             for k_ in range(1, 7):
                 state["accept"], state["calls"] = set(), []
-                rj = AE.apply(fnp, [obj, b"junk %d" % k_])
+                junk_ = (b"junk %d" % k_) if k_ % 3 else (b"/junk %d without end character" % k_)  # (also junk that begins like a P1 readout)
+                rj = AE.apply(fnp, [obj, junk_])
                 cells += 1
+                if rj[0] == "raise":
+                    V("R1", "escape:undecodable-payload", f"{rj[1]} leaves decode_message_payload for a payload that no decoder accepts (None is the documented answer)", fnp,
+                      f"remembered={names[prev]}, payload {junk_!r}")
+                    break
                 if rj[0] in ("undecided", "branch"):
                     und = f"a run of undecodable payloads: {rj[1]!r}"
                     break
